@@ -589,6 +589,12 @@ def c17(ck):
         raise ToolError("too few concurrent configurations enumerated: %d" % len(cases))
     table = write_cases(ck, cases, "conc-table.ndjson")
     ck.exhaustive = True
+    # eight goroutines in tight loops on small objects that hold one wide list at three depths, answers against a twin
+    ck.trace("hammer", "conc-hammer", ["-n", q(ck, 400, 4000)], "TraceConc", "TraceConc.cfg", ["InvC17"], worker=True, race=False,
+             nontrivial=lambda e: e.get("ev") == "conc", key=lambda e: json.dumps([e.get("ev"), e.get("calls"), "hammer"]),
+             consts_extra={"ChunkSize": 1})
+    if ck.violations:
+        return
     ev = ck.trace("conc", "conc", ["-in", table, "-n", q(ck, 4, 25)], "TraceConc", "TraceConc.cfg", ["InvC17"], worker=True, race=True,
                   nontrivial=lambda e: e.get("ev") == "conc", key=lambda e: json.dumps([e.get("ev"), e.get("calls")]))
     ck.replayed += len(cases)
@@ -597,12 +603,6 @@ def c17(ck):
     # the same, as the very first calls a process makes into the library (state initialised on first use)
     ev = ck.trace("cold", "conc-cold", ["-in", table, "-n", q(ck, 3, 10)], "TraceConc", "TraceConc.cfg", ["InvC17"], worker=True, race=True,
                   nontrivial=lambda e: e.get("ev") == "conc", key=lambda e: json.dumps([e.get("ev"), e.get("calls"), "cold"]))
-    if ck.violations:
-        return
-    # eight goroutines in tight loops on small objects that hold one wide list at three depths, answers against a twin
-    ck.trace("hammer", "conc-hammer", ["-n", q(ck, 400, 4000)], "TraceConc", "TraceConc.cfg", ["InvC17"], worker=True, race=False,
-             nontrivial=lambda e: e.get("ev") == "conc", key=lambda e: json.dumps([e.get("ev"), e.get("calls"), "hammer"]),
-             consts_extra={"ChunkSize": 1})
     ck.extra["cold_start"] = "%d configurations (one per multiset of operations%s), each in a process of its own, %d attempts" % (
         len(ev), "" if ck.tier == "thorough" else ", pairs", q(ck, 3, 10))
     ck.assumptions += ["one execution per configuration and round; schedules are not controlled (the detector does not need them to be)"]
